@@ -25,7 +25,7 @@ theorem fired_step (wl : Label) (t t' : St) (hs : step wl t = some t') (hf : t'.
         · simp only [Option.some.injEq] at hs; subst hs; exact Or.inl hf
       · simp at hs
     · simp at hs
-  | iterNext | wBegin w i | wLoadNext w | wLook w | wClaim w | wFixNext w | wNotify w =>
+  | iterNext | dropNext | wBegin w i | wLoadNext w | wLook w | wClaim w | wFixNext w | wNotify w =>
     simp only [step] at hs
     (repeat' split at hs) <;>
       first | (simp only [Option.some.injEq] at hs; subst hs; exact Or.inl hf) | (simp at hs)
